@@ -337,15 +337,16 @@ func classify(err error) string {
 
 // sut is one real pool over its stub chain, plus what the driver has to remember between steps.
 type sut struct {
-	w       *world
-	c       *Config
-	chain   *stubChain
-	pool    *tx_pool.TxPool
-	journal string
-	dirty   map[common.Address]bool // promotion owed (asynchronous submissions)
-	owed    bool                    // a run of the reorg loop is owed
-	evPath  bool                    // head events go through the ChainHeadEvent feed (else VerifReset)
-	sawRo   bool                    // a reorganisation has happened in this history
+	w            *world
+	c            *Config
+	chain        *stubChain
+	pool         *tx_pool.TxPool
+	journal      string
+	dirty        map[common.Address]bool // promotion owed (asynchronous submissions)
+	owed         bool                    // a run of the reorg loop is owed
+	evPath       bool                    // head events go through the ChainHeadEvent feed (else VerifReset)
+	sawRo        bool                    // a reorganisation has happened in this history
+	nonceAfterRo int                     // Nonce(addr) relation broken after a reorganisation (named deviation)
 	// history of membership, for the attribution of one known deviation (a transaction that left the pool and was
 	// submitted again can sit twice in the price heap: the stale entry of its first life becomes valid again)
 	last    map[Tx]bool // pooled at the last look
